@@ -233,10 +233,24 @@ def extract_pipeline(model, modname, fnname):
                 pipe.fast.append((rc, st.test.func.attr, model.fold(modname, v.left), st))
                 continue
             raise Unsupported('%s: guarded early return %r' % (fnname, norm(st).split('\n')[0]))
+        # w = v   (the text goes on under another name)
+        if isinstance(st, ast.Assign) and len(st.targets) == 1 and isinstance(st.targets[0], ast.Name) \
+                and isinstance(st.value, ast.Name) and st.value.id == cur:
+            cur = st.targets[0].id
+            continue
         # v = RE.sub(fn, v)
         if isinstance(st, ast.Assign) and len(st.targets) == 1 and isinstance(st.targets[0], ast.Name) \
                 and isinstance(st.value, ast.Call) and isinstance(st.value.func, ast.Attribute) \
-                and st.value.func.attr == 'sub' and len(st.value.args) == 2 and norm(st.value.args[1]) == cur:
+                and st.value.func.attr == 'sub' and len(st.value.args) in (2, 3) and norm(st.value.args[1]) == cur \
+                and all(k.arg == 'count' for k in st.value.keywords):
+            # Pattern.sub(repl, string, count=0): a third argument is the NUMBER of replacements, not a flag
+            cnt_node = st.value.args[2] if len(st.value.args) == 3 else next((k.value for k in st.value.keywords), None)
+            if cnt_node is not None:
+                cnt = model.fold(modname, cnt_node)
+                if not isinstance(cnt, int):
+                    raise Unsupported('%s: count argument %s of sub() is not constant' % (fnname, norm(cnt_node)))
+                if cnt != 0:
+                    pipe.limited = getattr(pipe, 'limited', []) + [(cnt, norm(cnt_node), st)]
             rc = model.fold(modname, st.value.func.value)
             if not isinstance(rc, RegexConst):
                 raise Unsupported('%s: %s is not a constant regex' % (fnname, norm(st.value.func.value)))
